@@ -58,11 +58,13 @@ struct c12_session : public vsim_session {
         L.push_back({"LIn:" + id,
           [q, px]() { std::vector<double> r;
             for (cvm::atom_group *g : q->atom_groups) for (size_t a = 0; a < g->atoms.size(); a++) {
-              cvm::rvector const &p = px->atoms_positions[g->atoms[a].index]; r.push_back(p.x); r.push_back(p.y); r.push_back(p.z); }
+              cvm::rvector const &p = px->atoms_positions[g->atoms[a].index]; r.push_back(p.x); r.push_back(p.y); r.push_back(p.z);
+              cvm::rvector const &f = px->atoms_total_forces[g->atoms[a].index]; r.push_back(f.x); r.push_back(f.y); r.push_back(f.z); }
             return r; },
           [q, px](std::vector<double> const &r) { size_t n = 0;
             for (cvm::atom_group *g : q->atom_groups) for (size_t a = 0; a < g->atoms.size(); a++) {
-              px->atoms_positions[g->atoms[a].index] = cvm::rvector(r[n], r[n + 1], r[n + 2]); n += 3; } }});
+              px->atoms_positions[g->atoms[a].index] = cvm::rvector(r[n], r[n + 1], r[n + 2]);
+              px->atoms_total_forces[g->atoms[a].index] = cvm::rvector(r[n + 3], r[n + 4], r[n + 5]); n += 6; } }});
         L.push_back({"LCvc:" + id,
           [q]() { std::vector<double> r; r.push_back(q->x.real_value); r.push_back(q->ft.real_value); r.push_back(q->jd.real_value);
             for (cvm::atom_group *g : q->atom_groups) for (size_t a = 0; a < g->atoms.size(); a++) {
@@ -106,8 +108,13 @@ struct c12_session : public vsim_session {
     snap_t S1 = getall(L);
     std::vector<size_t> W;
     for (size_t i = 0; i < L.size(); i++) if (S1[i] != S0[i]) W.push_back(i);
+    // control: an item with private state outside the locations (hills, samples, moving centres, extended coordinates)
+    // does not repeat itself; its read set cannot be derived by perturbation
+    setall(L, S0);
+    run_item();
+    bool const repeatable = (getall(L) == S1);
     std::vector<size_t> R;
-    for (size_t j = 0; j < L.size(); j++) {
+    for (size_t j = 0; repeatable && j < L.size(); j++) {
       if (S0[j].empty()) continue;
       setall(L, S0);
       std::vector<double> pv(S0[j]);
@@ -120,7 +127,7 @@ struct c12_session : public vsim_session {
       for (size_t w : W) for (size_t e = 0; e < S1[w].size(); e++) if (S1[w][e] != S0[w][e] && S2[w][e] != S1[w][e]) dep = true;
       if (dep) R.push_back(j);
     }
-    o << "FP " << label << " W=";
+    o << "FP " << label << (repeatable ? "" : " NOTREPEATABLE") << " W=";
     for (size_t k = 0; k < W.size(); k++) o << (k ? "," : "") << L[W[k]].name;
     o << " R=";
     for (size_t k = 0; k < R.size(); k++) o << (k ? "," : "") << L[R[k]].name;
